@@ -3,7 +3,7 @@ import ast
 import re._parser as sre_parse
 
 from ..prog import norm, walk_body, walk_local, AnalysisError, Func
-from ..cfg import cfg_of, node_exprs, walk_expr, handler_names
+from ..cfg import cfg_of, node_exprs, walk_expr, handler_names, reaching_defs
 from ..calls import calls_of
 from ..formats import format_registry
 from ..model import CALLEE_RAISES_ON_STR, ALWAYS_TRUTHY_RESULT, SUPERSET_DELEGATES, PURE_STR_METHODS, covered, base_name
@@ -67,7 +67,16 @@ def effects(prog, f, depth=0, seen=None):
                 if not isinstance(c, ast.Call):
                     continue
                 for kind, tgt in ext_targets(prog, f, c):
-                    if kind == "ext":
+                    if kind == "ext" and tgt in ("re.fullmatch", "re.match", "re.search") and c.args:
+                        a0 = c.args[0]
+                        rr = prog.resolve_expr(f.mod, a0, f) if isinstance(a0, (ast.Name, ast.Attribute)) else None
+                        if (isinstance(a0, ast.Constant) and isinstance(a0.value, str)) or \
+                                (isinstance(rr, tuple) and rr[0] == "expr" and isinstance(rr[2], ast.Constant) and isinstance(rr[2].value, str)):
+                            pass        # a pattern written in the source: compiles (or the module would not import cleanly under its tests)
+                        else:
+                            local |= {"re.error", "OverflowError", "RecursionError"}
+                            delegates.append(("re.compile", c, n))
+                    elif kind == "ext":
                         if tgt in CALLEE_RAISES_ON_STR:
                             local |= set(CALLEE_RAISES_ON_STR[tgt])
                             if tgt.startswith("re.") and tgt.split(".")[-1] in ("compile", "search", "match", "fullmatch") and \
@@ -108,6 +117,54 @@ def effects(prog, f, depth=0, seen=None):
             local = {x for x in local if not covered(x, hn)}
         esc |= local
     return esc, unknown, delegates
+
+
+def regex_test(prog, f, e2, p):
+    """(pattern, mode, ascii_flag) if e2 is a regex test on parameter p: <compiled>.fullmatch/match/search(p) with the compiled
+    pattern a module-level re.compile(<constant>[, flags]), or re.fullmatch/match/search(<constant or module constant>, p[, flags])."""
+    if not (isinstance(e2, ast.Call) and isinstance(e2.func, ast.Attribute) and e2.func.attr in ("fullmatch", "match", "search") and e2.args):
+        return None
+
+    def const_str(x):
+        if isinstance(x, ast.Constant) and isinstance(x.value, str):
+            return x.value
+        if isinstance(x, (ast.Name, ast.Attribute)):
+            rr = prog.resolve_expr(f.mod, x, f)
+            if isinstance(rr, tuple) and rr[0] == "expr" and isinstance(rr[2], ast.Constant) and isinstance(rr[2].value, str):
+                return rr[2].value
+        return None
+    is_re_module = norm(e2.func.value) == "re"
+    if is_re_module:
+        if len(e2.args) < 2 or norm(e2.args[1]) != p:
+            return None
+        pat = const_str(e2.args[0])
+        flags = list(e2.args[2:]) + [k.value for k in e2.keywords if k.arg == "flags"]
+    else:
+        if norm(e2.args[0]) != p:
+            return None
+        rr = prog.resolve_expr(f.mod, e2.func.value, f)
+        if not (isinstance(rr, tuple) and rr[0] == "expr" and isinstance(rr[2], ast.Call) and norm(rr[2].func).endswith("compile") and rr[2].args):
+            return None
+        pat = const_str(rr[2].args[0]) if not isinstance(rr[2].args[0], ast.Constant) else rr[2].args[0].value
+        flags = list(rr[2].args[1:]) + [k.value for k in rr[2].keywords if k.arg == "flags"]
+    if not isinstance(pat, str):
+        return None
+    txt = " ".join(norm(x) for x in flags)
+    if flags and not all(tok.strip().split(".")[-1] in ("ASCII", "A", "UNICODE", "U") for tok in txt.replace("|", " ").split()):
+        return None
+    return pat, e2.func.attr, ("ASCII" in txt or ".A" in txt.replace("re.ASCII", ""))
+
+
+def _full_date_test(pat, mode, ascii_flag):
+    """Does re.<mode>(pat, s) succeed exactly on the strings of the shape [0-9]{4}-[0-9]{2}-[0-9]{2}?  Decided on the automata."""
+    from .. import relang
+    try:
+        g = relang.build(relang.FULL_DATE_SHAPE, "fullmatch")
+        t = relang.build(pat, mode, ascii_flag)
+        sig = relang.alphabet(relang.FULL_DATE_SHAPE, pat)
+        return relang.intersect_witness(g, t, sig, b_complement=True) is None and relang.intersect_witness(t, g, sig, b_complement=True) is None
+    except relang.Unsupported:
+        return _full_date_regex(pat, ascii_flag) if mode == "fullmatch" else False
 
 
 def _full_date_regex(pat, flags_ascii):
@@ -244,6 +301,29 @@ def rule_email(ctx, entries, rid="R13.5"):
     return r
 
 
+def _ipv6_eval(prog, f, declared):
+    """is_ipv6 evaluated by sa/tokeval.py with the standard library's own ipaddress module on a table of forms: '' if it
+    agrees (accepting = truthy result; rejecting = falsy result or one of the declared exceptions), else the difference; None if
+    outside the fragment."""
+    from ..tokeval import Ev, Undecided, PyRaise
+    accept = ["::", "::1", "1::", "2001:db8::8a2e:370:7334", "2001:0db8:85a3:0000:0000:8a2e:0370:7334", "::ffff:192.0.2.1", "fe80::1", "1:2:3:4:5:6:7:8"]
+    reject = ["fe80::1%eth0", "fe80::1%1", "::1%", "2001:db8::/32", "1.2.3.4", "12345::", ":::", "", "::g", "1:2:3:4:5:6:7:8:9", " ::1"]
+    try:
+        for sv, want in [(x, True) for x in accept] + [(x, False) for x in reject]:
+            try:
+                res = Ev(prog, fuel=4000).call_func(f, [sv], {})
+                got = bool(res)
+            except PyRaise as pr:
+                if not covered(pr.name, declared) and pr.name not in ("AddressValueError",):
+                    return "is_ipv6(%r) raises %s, which its `raises` does not list" % (sv, pr.name)
+                got = False
+            if got != want:
+                return "is_ipv6(%r) %s it; the format %s it (no zone id, no prefix length)" % (sv, "accepts" if got else "rejects", "accepts" if want else "rejects")
+    except Undecided:
+        return None
+    return ""
+
+
 def rule_prefilters(ctx, entries, rid="R13.6"):
     """A regex test inside a checker that leads straight to `return False` removes strings from what the checker accepts.  With
     the format's grammar as a regular language (ipv4: four octets 0-255 without leading zeros; date: the YYYY-MM-DD shape every
@@ -274,18 +354,10 @@ def rule_prefilters(ctx, entries, rid="R13.6"):
                     and e2.comparators[0].value is None:
                 flip = flip != isinstance(e2.ops[0], ast.Is)
                 e2 = e2.left
-            if not (isinstance(e2, ast.Call) and isinstance(e2.func, ast.Attribute) and e2.func.attr in ("search", "match", "fullmatch") and e2.args and norm(e2.args[-1]) == p):
+            rt = regex_test(prog, f, e2, p)
+            if rt is None:
                 continue
-            pat, ascii_flag = None, False
-            if len(e2.args) == 1:
-                rr = prog.resolve_expr(f.mod, e2.func.value, f)
-                if isinstance(rr, tuple) and rr[0] == "expr" and isinstance(rr[2], ast.Call) and rr[2].args and isinstance(rr[2].args[0], ast.Constant):
-                    pat = rr[2].args[0].value
-                    ascii_flag = any("ASCII" in norm(a) for a in rr[2].args[1:]) or any("ASCII" in norm(k.value) for k in rr[2].keywords)
-            elif isinstance(e2.args[0], ast.Constant):
-                pat = e2.args[0].value
-            if not isinstance(pat, str):
-                continue
+            pat, mode_, ascii_flag = rt
             # which outcome leads straight to `return False`?
             rej = []
             for (lab, y) in t.succ:
@@ -296,14 +368,14 @@ def rule_prefilters(ctx, entries, rid="R13.6"):
                 where = site(f, t.ast)
                 try:
                     g = relang.build(gpat, "fullmatch")
-                    flt = relang.build(pat, e2.func.attr, ascii_flag)
+                    flt = relang.build(pat, mode_, ascii_flag)
                     w = relang.intersect_witness(g, flt, relang.alphabet(gpat, pat), b_complement=not on_match)
                 except relang.Unsupported as u:
                     r.ok(where, "NOT DECIDED: %s" % u)
                     r.note(where, "pre-filter %r of %s not decided: %s" % (pat, f.qual, u))
                     continue
                 if w is None:
-                    r.ok(where, "%s(%r) %s: disjoint from the %s grammar's complement side" % (e2.func.attr, pat, "rejects on match" if on_match else "rejects on no match", names[0]))
+                    r.ok(where, "%s(%r) %s: disjoint from the %s grammar's complement side" % (mode_, pat, "rejects on match" if on_match else "rejects on no match", names[0]))
                 else:
                     r.fail("%s|prefilter-rejects-grammar|%s" % (f.qual, pat[:30]), where,
                            "`%s` %s and then returns False; the %s string %r is rejected by it" % (
@@ -365,13 +437,25 @@ def run(ctx):
             if isinstance(v, ast.Constant) and v.value in (True, False):
                 r2.ok(site(f, rn.ast), "constant %s" % v.value)
                 continue
-            def verdict_kind(v):
+            rd13 = reaching_defs(cfg)
+
+            def verdict_kind(v, at=None, depth=0):
                 if isinstance(v, ast.Constant) and v.value in (True, False):
                     return "constant"
+                if isinstance(v, ast.Name) and at is not None and depth < 3:
+                    # a single-exit temporary: every definition that reaches the return must be a verdict
+                    defs = [cfg.nodes[d] for d in rd13[at.id].get(v.id, ())]
+                    kinds = []
+                    for dn in defs:
+                        if dn.kind == "stmt" and isinstance(dn.ast, ast.Assign) and len(dn.ast.targets) == 1:
+                            kinds.append(verdict_kind(dn.ast.value, dn, depth + 1))
+                        else:
+                            kinds.append(None)
+                    return " / ".join(sorted(set(kinds))) if kinds and all(kinds) else None
                 if isinstance(v, (ast.Compare, ast.BoolOp)) or (isinstance(v, ast.UnaryOp) and isinstance(v.op, ast.Not)):
                     return "boolean expression"
                 if isinstance(v, ast.IfExp):
-                    a, b = verdict_kind(v.body), verdict_kind(v.orelse)
+                    a, b = verdict_kind(v.body, at, depth + 1), verdict_kind(v.orelse, at, depth + 1)
                     return "%s / %s" % (a, b) if a and b else None
                 if isinstance(v, ast.Call):
                     tg = ext_targets(prog, f, v)
@@ -380,7 +464,7 @@ def run(ctx):
                     if norm(v.func) == "bool":
                         return "bool(...)"
                 return None
-            kind = verdict_kind(v)
+            kind = verdict_kind(v, rn)
             if kind:
                 r2.ok(site(f, rn.ast), "%s: %s" % (norm(v)[:50], kind))
             else:
@@ -396,17 +480,9 @@ def run(ctx):
                 if t.kind != "test":
                     continue
                 e2 = t.ast
-                if isinstance(e2, ast.Call) and isinstance(e2.func, ast.Attribute) and e2.func.attr == "fullmatch" and e2.args and norm(e2.args[-1]) == p:
-                    pat, ascii_flag = None, False
-                    if len(e2.args) == 1:
-                        rr = prog.resolve_expr(f.mod, e2.func.value, f)
-                        if isinstance(rr, tuple) and rr[0] == "expr" and isinstance(rr[2], ast.Call) and rr[2].args and isinstance(rr[2].args[0], ast.Constant):
-                            pat = rr[2].args[0].value
-                            ascii_flag = any("ASCII" in norm(a) for a in rr[2].args[1:]) or any("ASCII" in norm(k.value) for k in rr[2].keywords)
-                    elif isinstance(e2.args[0], ast.Constant):
-                        pat = e2.args[0].value
-                        ascii_flag = any("ASCII" in norm(a) for a in e2.args[2:])
-                    if pat is not None and _full_date_regex(pat, ascii_flag):
+                rt = regex_test(prog, f, e2, p)
+                if rt is not None:
+                    if _full_date_test(*rt):
                         tests.append((t, "true"))
             def shape_expr(e2, depth=0):
                 """e2 is true only if the instance fully matched the date shape: <regex>.fullmatch(instance) itself, a local
@@ -419,17 +495,9 @@ def run(ctx):
                 if isinstance(e2, ast.Name):
                     defs = [x.value for x in walk_body(f) if isinstance(x, ast.Assign) and any(isinstance(t2, ast.Name) and t2.id == e2.id for t2 in x.targets)]
                     return len(defs) == 1 and shape_expr(defs[0], depth + 1)
-                if isinstance(e2, ast.Call) and isinstance(e2.func, ast.Attribute) and e2.func.attr == "fullmatch" and e2.args and norm(e2.args[-1]) == p:
-                    pat, ascii_flag = None, False
-                    if len(e2.args) == 1:
-                        rr = prog.resolve_expr(f.mod, e2.func.value, f)
-                        if isinstance(rr, tuple) and rr[0] == "expr" and isinstance(rr[2], ast.Call) and rr[2].args and isinstance(rr[2].args[0], ast.Constant):
-                            pat = rr[2].args[0].value
-                            ascii_flag = any("ASCII" in norm(a) for a in rr[2].args[1:]) or any("ASCII" in norm(k.value) for k in rr[2].keywords)
-                    elif isinstance(e2.args[0], ast.Constant):
-                        pat = e2.args[0].value
-                        ascii_flag = any("ASCII" in norm(a) for a in e2.args[2:])
-                    return pat is not None and _full_date_regex(pat, ascii_flag)
+                rt = regex_test(prog, f, e2, p)
+                if rt is not None:
+                    return _full_date_test(*rt)
                 return False
             tests += [(t, "true") for t in cfg.live if t.kind == "test" and shape_expr(t.ast) and not any(t is t0 for (t0, _l) in tests)]
             tests += [(t, "false") for t in cfg.live if t.kind == "test" and isinstance(t.ast, ast.Compare) and len(t.ast.ops) == 1 and isinstance(t.ast.ops[0], ast.Is)
@@ -450,10 +518,13 @@ def run(ctx):
                         "%s hands the string straight to %s, which %s" % (f.name, tgt, SUPERSET_DELEGATES[tgt]))
         # R13.4
         if "ipv6" in names:
-            rets = [n for n in cfg.live if n.kind == "return" and not (isinstance(n.ast.value, ast.Constant))]
-            ok = any("scope_id" in norm(n.ast.value) and norm(n.ast.value).startswith("not ") for n in rets)
-            if ok:
-                r4.ok(site(f), "verdict is `not <address>.scope_id`")
+            sem = _ipv6_eval(prog, f, declared)
+            if sem is None:
+                rets = [n for n in cfg.live if n.kind == "return" and not (isinstance(n.ast.value, ast.Constant))]
+                ok = any("scope_id" in norm(n.ast.value) and norm(n.ast.value).startswith("not ") for n in rets)
+                sem = "" if ok else "the ipv6 verdict does not depend on the parsed address having no scope (zone) id"
+            if sem == "":
+                r4.ok(site(f), "plain and compressed forms and an embedded IPv4 tail pass; a zone id or prefix length does not (evaluated on 14 strings)")
             else:
-                r4.fail("%s|zone-id" % f.qual, site(f), "the ipv6 verdict does not depend on the parsed address having no scope (zone) id")
+                r4.fail("%s|zone-id" % f.qual, site(f), sem)
     return
